@@ -535,6 +535,40 @@ def numpy_namespace(I):
     def argmin(interp, x, axis=None):
         return _arg_extreme(interp, x, "Lt", axis)
 
+    def unique(interp, x, return_counts=False, return_index=False, return_inverse=False, axis=None):
+        """np.unique of the flattened array: sorted distinct values (forks on symbolic comparisons: data-dependent shape)"""
+        if return_index or return_inverse or axis is not None:
+            raise Unsupported("np.unique with return_index / return_inverse / axis")
+        vals = interp.call(interp.builtins["sorted"], [list(arr(interp, x).flat)], {})
+        vals = list(interp.iterate(vals))
+        out, counts = [], []
+        for v in vals:
+            if out and interp.truth(interp.eq(out[-1], v)):
+                counts[-1] += 1
+            else:
+                out.append(v)
+                counts.append(1)
+        u = SymArray(out, (len(out),))
+        if return_counts:
+            return (u, SymArray(counts, (len(counts),)))
+        return u
+
+    class _Ufunc(NativeObj):
+        """np.add / np.multiply / np.subtract: callable element-wise, with .outer"""
+
+        def __init__(self, op):
+            self.op = op
+
+        def _call(self, interp, args, kwargs):
+            a, b = args
+            return arr(interp, a)._binop(interp, self.op, b if not isinstance(b, (list, tuple)) else arr(interp, b), False)
+
+        def outer(self, a, b):
+            interp = SymArray._INTERP
+            a, b = arr(interp, a), arr(interp, b)
+            fa, fb = list(a.flat), list(b.flat)
+            return SymArray([interp.binop(self.op, x, y) for x in fa for y in fb], tuple(a.shape) + tuple(b.shape))
+
     def _ro(a):
         """numpy returns a VIEW here, this model a copy: reads agree, a write through the result is refused"""
         a._uncertain_view = True
@@ -643,7 +677,7 @@ def numpy_namespace(I):
         concatenate=NativeFn(concatenate, "np.concatenate"), expand_dims=NativeFn(lambda i, *a, **k: _ro(expand_dims(i, *a, **k)), "np.expand_dims"),
         squeeze=NativeFn(lambda i, *a, **k: _ro(squeeze(i, *a, **k)), "np.squeeze"), array_equal=NativeFn(array_equal, "np.array_equal"),
         int_=Opaque("np.int_"), int64=Opaque("np.int64"), int32=Opaque("np.int32"), int8=Opaque("np.int8"),
-        ndarray=SymArray, unique=unsupported("unique"), frombuffer=unsupported("frombuffer"),
+        ndarray=SymArray, unique=NativeFn(unique, "np.unique"), add=_Ufunc("Add"), multiply=_Ufunc("Mult"), subtract=_Ufunc("Sub"), frombuffer=unsupported("frombuffer"),
         argsort=unsupported("argsort"), allclose=unsupported("allclose"),
         linalg=_Linalg(), typing=Opaque("np.typing"), dtype=Opaque("np.dtype"),
     )
